@@ -56,6 +56,8 @@ def make_grad(draw, gi, pi, t, shape, scale=1.0):
         # structured sparsity (pruning masks, frozen rows): every other slice along one dimension is exactly zero, so neighbouring
         # slices are exactly orthogonal while non-neighbours are coupled (Gram matrices with zero first off-diagonals only)
         dim = (draw["seed"] + gi + pi) % g.dim()
+        if draw.get("stripe_largest"):
+            dim = max(range(g.dim()), key=lambda k: g.shape[k])
         idx = [slice(None)] * g.dim()
         idx[dim] = slice(1, None, 2)
         g[tuple(idx)] = 0.0
